@@ -47,9 +47,11 @@ def judge(case, part):
     """case: {"dialect": name, "fields": [{"name", "type", "empty", "length", "rule", + model keys}]}"""
     from cutplace import sql
 
+    if "create" in case:  # replay of a --create case
+        return create_option_case(case, part)
     m = harness.modules()
     dialect = sql.SQL_NAME_TO_DIALECT_MAP[case["dialect"]]
-    rows = [["D", "Format", "Delimited"]]
+    rows = [["D", "Format", "Delimited"]] + [["D", name, value] for name, value in case.get("props", [])]
     for field in case["fields"]:
         if "default" not in field:
             rows.append(["F", field["name"], "", "X" if field["empty"] else "", field.get("length", ""), field["type"], field.get("rule", "")])
@@ -57,6 +59,7 @@ def judge(case, part):
     part.transitions += 2
     tag = "%s|%%s" % case["dialect"]
     try:
+        rows += [["C", "check %d" % index, check_type, rule] for index, (check_type, rule) in enumerate(case.get("checks", []))]
         cid = harness.make_cid(rows)
         for field in case["fields"]:
             if "default" in field:
@@ -166,6 +169,11 @@ def all_cases(tier="quick"):
             cases.append({"dialect": dialect, "fields": [{"name": "v", "type": "Integer", "empty": False, "rule": rule, "range": [lo, hi]}]})
         for length, upper in (("0, 5...10", 10), ("1...2, 8", 8), ("8, 1...2", 8), ("0...3", 3)):
             cases.append({"dialect": dialect, "fields": [text_field("t", length, upper, True)]})
+        # data format properties and checks do not show in the statement: multi-byte encodings, uniqueness and distinct-count checks over optional and required fields
+        for props in ([["Encoding", "utf-8"]], [["Encoding", "utf-16"]], [["Encoding", "cp932"]], [["Encoding", "ascii"], ["Allowed characters", "32...126"]]):
+            cases.append({"dialect": dialect, "props": props, "fields": [text_field("a", "...9", 9, True), text_field("b", "3...60", 60, False), text_field("c", "...7", 7, True, "Choice", '"x","y"')]})
+        for checks in ([["IsUnique", "a"]], [["IsUnique", "a, b"], ["DistinctCount", "c < 9"]], [["IsUnique", "c, a"], ["IsUnique", "b"]]):
+            cases.append({"dialect": dialect, "checks": checks, "fields": [text_field("a", "...9", 9, True), text_field("b", "3...60", 60, False), text_field("c", "...7", 7, True, "Choice", '"x","y"'), integer_field("n", 0, 99, True)]})
         # fields added through the API with a default for empty cells, after a plain first field: NOT NULL is about the empty mark alone
         for empty_flags in itertools.product((False, True), repeat=2):
             api_fields = [text_field("first", "...5", 5, False)]
@@ -240,9 +248,47 @@ def interleaved(cases):
     return ordered
 
 
+def create_option_case(case, part):
+    """The command line's --create with the CID stored as csv, ods and xlsx: it writes <cid>_create.sql holding the ANSI statement of that CID."""
+    import csv
+
+    from cutplace import applications, sql
+
+    from mc import readermachine
+    from mc.props import c17
+
+    rows = [["D", "Format", "Delimited"]] + [["F", f["name"], "", "X" if f["empty"] else "", f.get("length", ""), f["type"], f.get("rule", "")] for f in case["fields"]]
+    part.evaluations += 1
+    part.nontrivial += 1
+    for storage in case["create"]:
+        path = c17.store_rows(rows, storage, "createcid")
+        target = os.path.splitext(path)[0] + "_create.sql"
+        if os.path.exists(target):
+            os.remove(target)
+        try:
+            code = applications.main(["cutplace", "--create", path])
+        except SystemExit as error:
+            code = "exit:%s" % error.code
+        except Exception as error:
+            code = "raised-" + type(error).__name__
+        part.transitions += 1
+        part.validated += 1
+        try:
+            expected = sql.SqlFactory(harness.make_cid(rows), os.path.splitext(os.path.basename(path))[0]).create_table_statement()
+        except Exception as error:
+            part.fail("create-option|statement-not-generated:" + type(error).__name__, case, "statement", repr(error))
+            return
+        written = open(target, encoding="utf-8").read() if os.path.exists(target) else None
+        if code != 0 or written != expected:
+            part.fail("create-option|cid-stored-as-%s|%s" % (storage, "exit-%s" % code if code != 0 else "statement-differs"), case, expected, {"exit": code, "written": written})
+
+
 def work(item):
     part = Part()
     for case in item:
+        if "create" in case:
+            create_option_case(case, part)
+            continue
         judge(case, part)
         if len(case["fields"]) > 1 or case["fields"][0].get("range", [0])[0] < 0:
             part.nontrivial += 1
@@ -252,6 +298,8 @@ def work(item):
 
 def run(ctx):
     cases = interleaved(all_cases(ctx.tier))
+    multi = [case for case in cases if len(case["fields"]) >= 3 and case["dialect"] == "ANSI" and not case.get("props") and not case.get("checks") and not any("default" in f for f in case["fields"])]
+    cases += [dict(case, create=["csv", "ods", "xlsx"]) for case in multi[:: max(1, len(multi) // 12)][:12]]
     ctx.pmap(MOD, "work", engine.chunks(cases, 120), label="C19")
     ctx.bound = {"cases": len(cases), "integer ranges": "all %d pairs lo <= hi over the boundary set of %d values x 4 dialects, plus length-derived and default ranges" % (len(BOUNDARY) * (len(BOUNDARY) + 1) // 2, len(BOUNDARY)),
                  "CIDs": "1..6 fields over a catalogue of 40 typed declarations with 10 names (keywords of every dialect included), empty flag both ways" + ("; every ordered pair and (over half of the catalogue) triple of declarations" if ctx.tier == "thorough" else ""), "dialects": ["ANSI", "DB2", "Transact-SQL", "PL/SQL"]}
